@@ -18,11 +18,11 @@ Notation period := (pc_period cfg).
 
 (* the states of a run between events *)
 Inductive reach : kst -> Prop :=
-| r_setup rs ls ds : reach (setup_state tb rs ls ds)
-| r_discard s : reach s -> reach (discard s)
-| r_clock t s : reach s -> reach (set_clock t s)
-| r_stuck s : reach s -> reach (set_stuck s)
-| r_event s h : reach s -> head (queue s) = Some h -> e_live h = true -> reach (pend_step tb h s).
+| rc_setup rs ls ds : reach (setup_state tb rs ls ds)
+| rc_discard s : reach s -> reach (discard s)
+| rc_clock t s : reach s -> reach (set_clock t s)
+| rc_stuck s : reach s -> reach (set_stuck s)
+| rc_event s h : reach s -> head (queue s) = Some h -> e_live h = true -> reach (pend_step tb h s).
 
 Definition Inv (s : kst) : Prop := good ub (pw_reqs (world s)) -> PInv cfg ub s.
 
@@ -92,11 +92,11 @@ Qed.
 Lemma run_pending_reach pf : forall t n s, reach s -> reach (snd (run_pending tb pf t n s)).
 Proof.
   induction pf as [|pf IH]; intros t n s R; cbn [run_pending].
-  - apply r_stuck, R.
-  - pose proof (r_discard s R) as R0.
+  - apply rc_stuck, R.
+  - pose proof (rc_discard s R) as R0.
     destruct (head (queue (discard s))) as [h|] eqn:Eh; [|exact R0].
     destruct (Qle_bool (e_time h) t); [|exact R0].
-    apply IH. apply (r_event (discard s) h R0 Eh). eapply discard_head_live; exact Eh.
+    apply IH. apply (rc_event (discard s) h R0 Eh). eapply discard_head_live; exact Eh.
 Qed.
 
 Lemma pulse_transitions : transitions tb = [].
@@ -109,38 +109,38 @@ Proof. reflexivity. Qed.
 Lemma stoch_loop_reach pf fuel : forall t ev s, reach s -> reach (snd (stoch_loop tb pf fuel t ev s)).
 Proof.
   induction fuel as [|f IH]; intros t ev s R; cbn [stoch_loop].
-  - apply r_stuck, R.
+  - apply rc_stuck, R.
   - destruct (Qle_bool (t_maxtime tb) t || t_equil tb (loci s) (world s)); [exact R|].
     rewrite pulse_transitions. cbn [sum_rates fold_left].
     change (Qeq_bool 0 0) with true. cbn iota.
     unfold next_pending_time.
-    destruct (head (queue (discard s))) as [h|] eqn:Eh; cbn [option_map]; [|apply r_discard, R].
-    pose proof (run_pending_reach pf (e_time h) 0 (discard s) (r_discard s R)) as R1.
+    destruct (head (queue (discard s))) as [h|] eqn:Eh; cbn [option_map]; [|apply rc_discard, R].
+    pose proof (run_pending_reach pf (e_time h) 0 (discard s) (rc_discard s R)) as R1.
     destruct (run_pending tb pf (e_time h) 0 (discard s)) as [n s'']. apply IH. exact R1.
 Qed.
 
 Lemma sync_loop_reach pf fuel : forall t ev k s, reach s -> reach (snd (sync_loop tb pf fuel t ev k s)).
 Proof.
   induction fuel as [|f IH]; intros t ev k s R; cbn [sync_loop].
-  - apply r_stuck, R.
+  - apply rc_stuck, R.
   - destruct (Qle_bool (t_maxtime tb) t || t_equil tb (loci s) (world s)); [exact R|].
-    pose proof (run_pending_reach pf t 0 (set_clock t s) (r_clock t s R)) as R1.
+    pose proof (run_pending_reach pf t 0 (set_clock t s) (rc_clock t s R)) as R1.
     destruct (run_pending tb pf t 0 (set_clock t s)) as [n s1]. cbn [snd] in R1.
     unfold tranche. rewrite pulse_per_element, pulse_fixed_rate. cbn [tranche_elem tranche_fixed app fire_tranche].
-    apply IH. apply r_clock, R1.
+    apply IH. apply rc_clock, R1.
 Qed.
 
 Lemma stoch_run_reach pf fuel rs ls ds : reach (r_final (stoch_run tb pf fuel rs ls ds)).
 Proof.
   unfold stoch_run.
-  pose proof (stoch_loop_reach pf fuel 0 0%nat _ (r_setup rs ls ds)) as R.
+  pose proof (stoch_loop_reach pf fuel 0 0%nat _ (rc_setup rs ls ds)) as R.
   destruct (stoch_loop tb pf fuel 0 0 (setup_state tb rs ls ds)) as [[t ev] s]. exact R.
 Qed.
 
 Lemma sync_run_reach pf fuel rs ds : reach (r_final (sync_run tb pf fuel rs ds)).
 Proof.
   unfold sync_run.
-  pose proof (sync_loop_reach pf fuel 1 0%nat 0%nat _ (r_setup rs [] ds)) as R.
+  pose proof (sync_loop_reach pf fuel 1 0%nat 0%nat _ (rc_setup rs [] ds)) as R.
   destruct (sync_loop tb pf fuel 1 0 0 (setup_state tb rs [] ds)) as [[[t ev] k] s]. exact R.
 Qed.
 
